@@ -66,7 +66,7 @@ func (c *ProposerRelayConfig) MarshalJSON() ([]byte, error) {
 	}
 	var minValue string
 	if c.MinValue != nil {
-		minValue = fmt.Sprintf("%v", c.MinValue.Div(weiPerETH))
+		minValue = fmt.Sprintf("%v", c.MinValue.Shift(-18))
 	}
 	return json.Marshal(&proposerRelayConfigJSON{
 		Disabled:     c.Disabled,
